@@ -29,23 +29,21 @@ theorem C03_lax_ge_fixpoint (P : Prims) (v b : PyVal) (hv : Numeric v) (hb : Num
     ∃ w, Constraints.lax_ge P v b = .ok w ∧ Constraints.lax_ge P w b = .ok w ∧ Constraints.ge P w b = .ok w := by
   obtain ⟨x, hx, nx⟩ := hv
   obtain ⟨y, hy, ny⟩ := hb
-  have dv := numeric_not_decnan ⟨x, hx, nx⟩
-  have db := numeric_not_decnan ⟨y, hy, ny⟩
-  have hlt := lt_numeric hx hy dv db
+  have hlt := lt_numeric hx hy nx ny
   rw [lax_ge_val P v b _ hlt]
   cases hl : NumV.lt x y with
   | true =>
     refine ⟨b, rfl, ?_, ?_⟩
-    · rw [lax_ge_val P b b _ (lt_numeric hy hy db db), NumV.lt_irrefl]; rfl
+    · rw [lax_ge_val P b b _ (lt_numeric hy hy ny ny), NumV.lt_irrefl]; rfl
     · rw [C02_ge_iff]
-      simp [Py.ge, Py.le, lt_numeric hy hy db db, NumV.lt_irrefl, eq_numeric hy hy, NumV.eq_refl y ny,
+      simp [Py.ge, Py.le, lt_numeric hy hy ny ny, NumV.lt_irrefl, eq_numeric hy hy, NumV.eq_refl y ny,
         bind, Except.bind, pure, Except.pure]
   | false =>
     refine ⟨v, rfl, ?_, ?_⟩
     · rw [lax_ge_val P v b _ hlt, hl]; rfl
     · rw [C02_ge_iff]
       have := NumV.tri x y nx ny hl
-      simp only [Py.ge, Py.le, lt_numeric hy hx db dv, eq_numeric hy hx, bind, Except.bind, pure, Except.pure]
+      simp only [Py.ge, Py.le, lt_numeric hy hx ny nx, eq_numeric hy hx, bind, Except.bind, pure, Except.pure]
       rw [NumV.eq_symm y x]
       rcases this with h | h <;> simp [h]
 
@@ -53,24 +51,22 @@ theorem C03_lax_le_fixpoint (P : Prims) (v b : PyVal) (hv : Numeric v) (hb : Num
     ∃ w, Constraints.lax_le P v b = .ok w ∧ Constraints.lax_le P w b = .ok w ∧ Constraints.le P w b = .ok w := by
   obtain ⟨x, hx, nx⟩ := hv
   obtain ⟨y, hy, ny⟩ := hb
-  have dv := numeric_not_decnan ⟨x, hx, nx⟩
-  have db := numeric_not_decnan ⟨y, hy, ny⟩
-  have hgt : Py.gt v b = .ok (NumV.lt y x) := lt_numeric hy hx db dv
+  have hgt : Py.gt v b = .ok (NumV.lt y x) := lt_numeric hy hx ny nx
   rw [lax_le_val P v b _ hgt]
   cases hl : NumV.lt y x with
   | true =>
     refine ⟨b, rfl, ?_, ?_⟩
-    · have : Py.gt b b = .ok (NumV.lt y y) := lt_numeric hy hy db db
+    · have : Py.gt b b = .ok (NumV.lt y y) := lt_numeric hy hy ny ny
       rw [lax_le_val P b b _ this, NumV.lt_irrefl]; rfl
     · rw [C02_le_iff]
-      simp [Py.le, lt_numeric hy hy db db, NumV.lt_irrefl, eq_numeric hy hy, NumV.eq_refl y ny,
+      simp [Py.le, lt_numeric hy hy ny ny, NumV.lt_irrefl, eq_numeric hy hy, NumV.eq_refl y ny,
         bind, Except.bind, pure, Except.pure]
   | false =>
     refine ⟨v, rfl, ?_, ?_⟩
     · rw [lax_le_val P v b _ hgt, hl]; rfl
     · rw [C02_le_iff]
       have := NumV.tri y x ny nx hl
-      simp only [Py.le, lt_numeric hx hy dv db, eq_numeric hx hy, bind, Except.bind, pure, Except.pure]
+      simp only [Py.le, lt_numeric hx hy nx ny, eq_numeric hx hy, bind, Except.bind, pure, Except.pure]
       rw [NumV.eq_symm x y]
       rcases this with h | h <;> simp [h]
 
@@ -348,5 +344,20 @@ theorem C03_strict_idempotent (P : Prims) (cs : List (String × PyVal)) (v r : P
   have := (C02_validate_iff P cs v r hp).mp h
   rw [this.2] at h ⊢
   exact h
+
+/-! ### the validator phase with a lax constraint after a strict one is NOT idempotent on the unchanged tree
+(known finding `lax-result-not-revalidated`): `gt=3, multiple_of=Lax(3)` accepts 4, returns 3, and rejects 3. -/
+
+theorem C03_lax_after_strict_witness (P : Prims) :
+    validate P [("gt", .int 3), ("lax_multiple_of", .int 3)] (.int 4) = .ok (.int 3) ∧
+    validate P [("gt", .int 3), ("lax_multiple_of", .int 3)] (.int 3) = .error .valueError := by
+  constructor <;> rfl
+
+/-- the defect needs a second constraint: a declaration whose only constraint is lax is idempotent
+(the per-constraint fixed-point theorems above); stated for the validator loop on a one-element list. -/
+theorem C03_single_lax_idempotent_partial (P : Prims) (name : String) (b v w : PyVal) (f : Validator)
+    (hf : validatorOf name = some f) (h1 : f P v b = .ok w) (hfix : f P w b = .ok w) :
+    validate P [(name, b)] v = .ok w ∧ validate P [(name, b)] w = .ok w := by
+  simp [validate, hf, h1, hfix, bind, Except.bind, pure, Except.pure]
 
 end Utv.C03
